@@ -54,6 +54,100 @@ def _render_template(t: str) -> str:
     return out.replace("[_POSITION]", "1")
 
 
+def _run_per_style(ctx, f, style, styles, what, env=None):
+    """Run the body of `f` concretely (tolerantly) in a world where the dialect's paramstyle is `style`."""
+    def attr_hook(node, env_, mini):
+        d = dotted(node)
+        if d in ("dialect.paramstyle", "self.dialect.paramstyle"):
+            return style
+        if d in ("dialect.positional", "self.dialect.positional"):
+            return styles[style]["positional"]
+        return NotImplemented
+
+    def name_hook(nm):
+        if nm in f.module.assigns and len(f.module.assigns[nm]) == 1:
+            v = ctx.ev.module_value(f.module, nm)
+            if isinstance(v, (str, int, tuple, list, set, frozenset, dict, bool)) and not has_unknown(v):
+                return v
+        return NotImplemented
+
+    mini = RC.TolerantMini(attr_hook=attr_hook, name_hook=name_hook, what=what)
+    env = dict(env or {})
+    ctx.functions_analysed.add(f.key)
+    return mini.run_tolerant(f.node.body, env), env, mini
+
+
+def _string_sub_calls(fn):
+    """Regular-expression substitutions with a callback whose subject is the statement text `self.string`
+    (`re.sub(P, cb, self.string)` / `P.sub(cb, self.string)`, aliases of the subject resolved)."""
+    subst = RC.pure_alias_bindings(fn)
+    out = []
+    for c in calls_in(fn):
+        if dotted(c.func) == "re.sub" and len(c.args) >= 3:
+            cb, text = c.args[1], c.args[2]
+        elif isinstance(c.func, ast.Attribute) and c.func.attr == "sub" and len(c.args) >= 2:
+            cb, text = c.args[0], c.args[1]
+        else:
+            continue
+        if dotted(RC.substitute(text, subst)) == "self.string":
+            out.append((c, cb))
+    return out
+
+
+def _positional_placeholder(ctx, pp, style, styles):
+    """What the substitution callback over self.string returns for a normal bind when the paramstyle is `style`
+    (None: the style is refused by an assertion)."""
+    subs = _string_sub_calls(pp.node)
+    ctx.require(subs, "_process_positional: no substitution with a callback over self.string")
+    call, cb = subs[0]
+    # statements of the method up to the one that performs the substitution
+    upto = []
+    for st in pp.node.body:
+        if any(n is call for n in ast.walk(st)):
+            break
+        upto.append(st)
+
+    def attr_hook(node, env_, mini):
+        d = dotted(node)
+        if d == "self.dialect.paramstyle":
+            return style
+        if d == "self._numeric_binds":
+            return styles[style]["numeric"]
+        return NotImplemented
+
+    class _M:           # the match object of a normal bind named `x`
+        pass
+
+    def call_hook(c, env_, mini):
+        if isinstance(c.func, ast.Attribute) and c.func.attr == "group" and isinstance(c.func.value, ast.Name) \
+                and isinstance(env_.get(c.func.value.id), _M) and len(c.args) == 1 and isinstance(c.args[0], ast.Constant):
+            return {0: ":x", 1: "x"}.get(c.args[0].value)
+        return NotImplemented
+
+    mini = RC.TolerantMini(attr_hook=attr_hook, call_hook=call_hook, what="_process_positional")
+    env = {}
+    if mini.run_tolerant(upto, env) != "ok":
+        return None
+    if isinstance(cb, ast.Name):
+        defs = [n for n in ast.walk(pp.node) if isinstance(n, ast.FunctionDef) and n.name == cb.id]
+        ctx.require(len(defs) == 1, f"_process_positional: substitution callback `{cb.id}` is not a local function")
+        params = defs[0].args.posonlyargs + defs[0].args.args
+        ctx.require(len(params) == 1, "_process_positional: the substitution callback does not take the match alone")
+        env[params[0].arg] = _M()
+        try:
+            kind, value, _node = mini.run(defs[0].body, env)
+        except Unsupported as e:
+            ctx.error(f"_process_positional: cannot evaluate the substitution callback for `{style}`: {e}")
+        ctx.require(kind == "return", "_process_positional: the substitution callback does not return a replacement")
+        return value
+    ctx.require(isinstance(cb, ast.Lambda) and len(cb.args.args) == 1, "_process_positional: substitution callback not understood")
+    env[cb.args.args[0].arg] = _M()
+    try:
+        return mini.ev(cb.body, env)
+    except Unsupported as e:
+        ctx.error(f"_process_positional: cannot evaluate the substitution callback for `{style}`: {e}")
+
+
 @R.rule("C04-R1", floor=43, template="T-TABLE/T-SIBLING",
         desc="paramstyle vocabulary: BIND_TEMPLATES keys/values, DefaultDialect positional tuple, numeric test and "
              "marker, _process_positional placeholders, percent doubling set and all dialect paramstyle literals "
@@ -74,47 +168,33 @@ def r1(ctx):
             got = _render_template(bt[s])
             ctx.check(got == styles[s]["placeholder"], key,
                       f"template {bt[s]!r} renders {got!r}; a `{s}` driver expects {styles[s]['placeholder']!r}", got, None)
-    # positional tuple
+    # Each of the following tables is read by *running* the constructor / method concretely for every paramstyle of
+    # the oracle (tolerant: statements that do not concern the scalars are skipped), so aliases, local tuples,
+    # ternaries, if/elif chains, early asserts and lookup tables all mean the same thing.
+    # positional flag
     init = ctx.func(f"{DEFAULT}::DefaultDialect.__init__")
-    pos = None
-    for n in walk_local(init.node):
-        if isinstance(n, ast.Assign) and any(self_attr(t) == "positional" for t in n.targets) \
-                and isinstance(n.value, ast.Compare) and isinstance(n.value.ops[0], ast.In) \
-                and dotted(n.value.left) == "self.paramstyle":
-            pos = ctx.ev.eval(n.value.comparators[0], init.module)
-    ctx.require(isinstance(pos, (tuple, list, set, frozenset)) and not has_unknown(pos),
-                "DefaultDialect.__init__: `self.positional = self.paramstyle in (...)` not found")
     for s in sorted(styles):
-        ctx.check((s in pos) == styles[s]["positional"], f"{init.key}:positional:{s}",
-                  f"paramstyle `{s}` is {'not ' if s not in pos else ''}treated as positional, the DBAPI says "
-                  f"positional={styles[s]['positional']}", f"positional={s in pos}", init.loc)
+        st_, env, _m = _run_per_style(ctx, init, s, styles, "DefaultDialect.__init__", {"paramstyle": s})
+        pos = env.get("self.positional")
+        ctx.require(st_ == "ok" and isinstance(pos, bool) and env.get("self.paramstyle") == s,
+                    f"DefaultDialect.__init__: cannot evaluate `self.positional` for paramstyle `{s}`")
+        ctx.check(pos == styles[s]["positional"], f"{init.key}:positional:{s}",
+                  f"paramstyle `{s}` is {'not ' if not pos else ''}treated as positional, the DBAPI says "
+                  f"positional={styles[s]['positional']}", f"positional={pos}", init.loc)
     # numeric test + marker in SQLCompiler.__init__
     cinit = ctx.func(f"{COMP}::SQLCompiler.__init__")
-    nb_expr = None
-    ch_expr = None
-    for n in walk_local(cinit.node):
-        if isinstance(n, ast.Assign):
-            names = {self_attr(t) for t in n.targets}
-            if "_numeric_binds" in names:
-                nb_expr = n.value
-            if "_numeric_binds_identifier_char" in names:
-                ch_expr = n.value
-    ctx.require(nb_expr is not None and ch_expr is not None, "SQLCompiler.__init__: numeric bind set-up not found")
-
-    def attr_hook_for(style):
-        def hook(node, env, mini):
-            if dotted(node) in ("dialect.paramstyle", "self.dialect.paramstyle"):
-                return style
-            return NotImplemented
-        return hook
-
+    comp_cls = ix.cls(f"{COMP}::SQLCompiler")
+    nb_default = [n.value for n in comp_cls.assigns.get("_numeric_binds", []) if isinstance(n, ast.Constant)]
+    seen_store = False
     for s in sorted(styles):
-        mini = Mini(attr_hook=attr_hook_for(s), what="SQLCompiler.__init__ numeric test")
-        nb = bool(mini.ev(nb_expr, {}))
+        st_, env, _m = _run_per_style(ctx, cinit, s, styles, "SQLCompiler.__init__")
+        seen_store = seen_store or "self._numeric_binds" in env
+        nb = env.get("self._numeric_binds", nb_default[-1] if nb_default else False)
+        ctx.require(st_ == "ok" and isinstance(nb, bool), f"SQLCompiler.__init__: cannot evaluate `_numeric_binds` for paramstyle `{s}`")
         ok = nb == styles[s]["numeric"]
         detail = f"numeric={nb}"
         if ok and nb:
-            ch = mini.ev(ch_expr, {})
+            ch = env.get("self._numeric_binds_identifier_char")
             want = styles[s]["placeholder"][0]
             ok = ch == want and s in bt and bt[s].startswith(want)
             detail += f", marker {ch!r}"
@@ -123,50 +203,25 @@ def r1(ctx):
         elif not ok:
             detail = f"`{s}` is {'not ' if not nb else ''}treated as numeric, oracle says numeric={styles[s]['numeric']}"
         ctx.check(ok, f"{cinit.key}:numeric:{s}", detail, detail, cinit.loc)
-    # _process_positional branches
+    ctx.require(seen_store, "SQLCompiler.__init__: numeric bind set-up not found")
+    # _process_positional: what the substitution callback puts into the text for a normal bind
     pp = ctx.func(f"{COMP}::SQLCompiler._process_positional")
-    handled = {}
-    pm = pp.module.parents()
-    for n in walk_local(pp.node):
-        if isinstance(n, ast.Assign) and isinstance(n.targets[0], ast.Name) and isinstance(n.value, ast.Constant) \
-                and isinstance(n.value.value, str):
-            atoms = guard_atoms(lexical_guards(pm, n, stop=pp.node))
-            if not any("paramstyle" in a for a, _ in atoms):
-                continue
-            style = None
-            for a, pol in atoms:
-                mm = re.match(r"^self\.dialect\.paramstyle == '(\w+)'$", a)
-                if mm and pol:
-                    style = mm.group(1)
-            if style is None:
-                # else-arm: the style named by the sibling assert
-                blk = pm.get(n)
-                for st in getattr(blk, "orelse", []):
-                    if isinstance(st, ast.Assert):
-                        mm = re.match(r"^self\.dialect\.paramstyle == '(\w+)'$", unparse(st.test))
-                        if mm:
-                            style = mm.group(1)
-            ctx.require(style is not None, f"_process_positional: cannot tell which paramstyle gets placeholder {n.value.value!r}")
-            handled[style] = n.value.value
     want_handled = {s for s in styles if styles[s]["positional"] and not styles[s]["numeric"]}
-    for s in sorted(want_handled | set(handled)):
-        ok = s in handled and s in want_handled and handled[s] == styles[s]["placeholder"]
-        ctx.check(ok, f"{pp.key}:placeholder:{s}",
-                  f"_process_positional renders {handled.get(s)!r} for `{s}` (expected {styles.get(s, {}).get('placeholder')!r}; "
-                  f"non-numeric positional styles are {sorted(want_handled)})", f"{handled.get(s)!r}", pp.loc)
+    for s in sorted(want_handled):
+        got = _positional_placeholder(ctx, pp, s, styles)
+        ctx.check(got == styles[s]["placeholder"], f"{pp.key}:placeholder:{s}",
+                  f"_process_positional renders {got!r} for `{s}` (expected {styles[s]['placeholder']!r}; "
+                  f"non-numeric positional styles are {sorted(want_handled)})", f"{got!r}", pp.loc)
     # percent doubling
     pinit = ctx.func(f"{COMP}::IdentifierPreparer.__init__")
-    dp = None
-    for n in walk_local(pinit.node):
-        if isinstance(n, ast.Assign) and any(self_attr(t) == "_double_percents" for t in n.targets) \
-                and isinstance(n.value, ast.Compare) and isinstance(n.value.ops[0], ast.In):
-            dp = ctx.ev.eval(n.value.comparators[0], pinit.module)
-    ctx.require(isinstance(dp, (tuple, list, set, frozenset)), "IdentifierPreparer.__init__: _double_percents set not found")
     for s in sorted(styles):
-        ctx.check((s in dp) == styles[s]["percent_is_special"], f"{pinit.key}:double_percents:{s}",
-                  f"`{s}`: percent doubling is {'on' if s in dp else 'off'} but the driver "
+        st_, env, _m = _run_per_style(ctx, pinit, s, styles, "IdentifierPreparer.__init__")
+        dp = env.get("self._double_percents")
+        ctx.require(st_ == "ok" and isinstance(dp, bool), f"IdentifierPreparer.__init__: cannot evaluate `_double_percents` for paramstyle `{s}`")
+        ctx.check(dp == styles[s]["percent_is_special"], f"{pinit.key}:double_percents:{s}",
+                  f"`{s}`: percent doubling is {'on' if dp else 'off'} but the driver "
                   f"{'does' if styles[s]['percent_is_special'] else 'does not'} %-format the statement",
-                  f"double_percents={s in dp}", pinit.loc)
+                  f"double_percents={dp}", pinit.loc)
     # literals in dialects
     dd = ix.cls(f"{DEFAULT}::DefaultDialect")
     for cls in [dd] + sorted(ix.subclasses(dd), key=lambda c: c.key):
@@ -658,3 +713,228 @@ R.mutant("benign-r5-detection-after-bind-expression-with-forwarded-flag", COMP,
 R.mutant("benign-r5-condition-through-a-local", COMP,
          sub("        if (\n            is_upsert_set\n            and bindparam.value is None\n            and bindparam.callable is None\n            and self._insertmanyvalues is not None\n        ):\n",
              "        takes_row_value = bindparam.value is None and bindparam.callable is None\n        if (\n            is_upsert_set\n            and self._insertmanyvalues is not None\n            and takes_row_value\n        ):\n"), None)
+
+# ---------------------------------------------------------------------- rob-C3: robustness battery
+# Behaviour-preserving refactoring families (stored refactors rfC_10 / rfC_11 and further variants) that must stay
+# silent, and neighbouring edits that break the clause and must fire.
+_PP_CB_OLD = (
+    "        def find_position(m: re.Match[str]) -> str:\n"
+    "            normal_bind = m.group(1)\n"
+    "            if normal_bind:\n"
+    "                positions.append(normal_bind)\n"
+    "                return placeholder\n"
+    "            else:\n"
+    "                # this a post-compile bind\n"
+    "                positions.append(m.group(2))\n"
+    "                return m.group(0)\n"
+)
+_PP_CB_EARLY = (
+    "        def find_position(m: re.Match[str]) -> str:\n"
+    "            normal_bind = m.group(1)\n"
+    "            if not normal_bind:\n"
+    "                positions.append(m.group(2))\n"
+    "                return m.group(0)\n"
+    "\n"
+    "            positions.append(normal_bind)\n"
+    "            return placeholder\n"
+)
+_PP_SUB_OLD = "        self.string = re.sub(\n            self._positional_pattern, find_position, self.string\n        )\n"
+_PP_TUP_OLD = (
+    "        if self.escaped_bind_names:\n"
+    "            reverse_escape = {v: k for k, v in self.escaped_bind_names.items()}\n"
+    "            assert len(self.escaped_bind_names) == len(reverse_escape)\n"
+    "            self.positiontup = [\n"
+    "                reverse_escape.get(name, name) for name in positions\n"
+    "            ]\n"
+    "        else:\n"
+    "            self.positiontup = positions\n"
+)
+# family (rfC_10): pattern alias, early return in the callback, `d[k] if k in d else k`
+R.mutant("benign-r3-positional-conditional-lookup-early-return-alias", COMP, chain(
+    sub(_PP_CB_OLD, "        positional_pattern = self._positional_pattern\n\n" + _PP_CB_EARLY),
+    sub(_PP_SUB_OLD, "        self.string = re.sub(positional_pattern, find_position, self.string)\n"),
+    sub("                reverse_escape.get(name, name) for name in positions\n",
+        "                reverse_escape[name] if name in reverse_escape else name\n                for name in positions\n")), None)
+# family: comprehension -> loop with an if-statement translation; inverted outer if/else; alias of the map
+R.mutant("benign-r3-positional-loop-and-inverted-branches", COMP, sub(
+    _PP_TUP_OLD,
+    "        escaped = self.escaped_bind_names\n"
+    "        if not escaped:\n"
+    "            self.positiontup = positions\n"
+    "        else:\n"
+    "            unescape = {}\n"
+    "            for original, esc_name in escaped.items():\n"
+    "                unescape[esc_name] = original\n"
+    "            assert len(escaped) == len(unescape)\n"
+    "            names = []\n"
+    "            for found in positions:\n"
+    "                if found in unescape:\n"
+    "                    found = unescape[found]\n"
+    "                names.append(found)\n"
+    "            self.positiontup = names\n"), None)
+# family: single store through a local, ternary on the escape map
+R.mutant("benign-r3-positional-single-store-ternary", COMP, sub(
+    _PP_TUP_OLD,
+    "        reverse_escape = {v: k for k, v in self.escaped_bind_names.items()}\n"
+    "        assert len(self.escaped_bind_names) == len(reverse_escape)\n"
+    "        self.positiontup = (\n"
+    "            [reverse_escape.get(name, name) for name in positions]\n"
+    "            if reverse_escape\n"
+    "            else positions\n"
+    "        )\n"), None)
+_PN_LOOP_OLD = (
+    "            if (\n"
+    "                bind in self.post_compile_params\n"
+    "                or bind in self.literal_execute_params\n"
+    "            ):\n"
+    "                # set to None to just mark the in positiontup, it will not\n"
+    "                # be replaced below.\n"
+    "                param_pos[bind_name] = None  # type: ignore[assignment]\n"
+    "            else:\n"
+    "                ph = f\"{self._numeric_binds_identifier_char}{num}\"\n"
+    "                num += 1\n"
+    "                param_pos[bind_name] = ph\n"
+)
+_PN_REKEY_OLD = (
+    "        if self.escaped_bind_names:\n"
+    "            len_before = len(param_pos)\n"
+    "            param_pos = {\n"
+    "                self.escaped_bind_names.get(name, name): pos\n"
+    "                for name, pos in param_pos.items()\n"
+    "            }\n"
+    "            assert len(param_pos) == len_before\n"
+)
+# family (rfC_11): `or` split into if/elif, aliases, f-string -> %, conditional lookup
+R.mutant("benign-r3-numeric-elif-aliases-percent-conditional-lookup", COMP, chain(
+    sub(_PN_LOOP_OLD,
+        "            if bind in self.post_compile_params:\n"
+        "                param_pos[bind_name] = None  # type: ignore[assignment]\n"
+        "            elif bind in self.literal_execute_params:\n"
+        "                param_pos[bind_name] = None  # type: ignore[assignment]\n"
+        "            else:\n"
+        "                placeholder = \"%s%s\" % (self._numeric_binds_identifier_char, num)\n"
+        "                num += 1\n"
+        "                param_pos[bind_name] = placeholder\n"),
+    sub(_PN_REKEY_OLD,
+        "        escaped_bind_names = self.escaped_bind_names\n"
+        "        if escaped_bind_names:\n"
+        "            len_before = len(param_pos)\n"
+        "            param_pos = {\n"
+        "                (\n"
+        "                    escaped_bind_names[name]\n"
+        "                    if name in escaped_bind_names\n"
+        "                    else name\n"
+        "                ): pos\n"
+        "                for name, pos in param_pos.items()\n"
+        "            }\n"
+        "            assert len(param_pos) == len_before\n")), None)
+# family: boolean local as guard + early continue; collection aliases; re-keying by a loop; callback as a def
+R.mutant("benign-r3-numeric-continue-boolean-local-loop-rekey-def-callback", COMP, chain(
+    sub(_PN_LOOP_OLD,
+        "            literal_params = self.literal_execute_params\n"
+        "            rendered_inline = (\n"
+        "                bind in self.post_compile_params or bind in literal_params\n"
+        "            )\n"
+        "            if rendered_inline:\n"
+        "                param_pos[bind_name] = None  # type: ignore[assignment]\n"
+        "                continue\n"
+        "            ph = f\"{self._numeric_binds_identifier_char}{num}\"\n"
+        "            num = num + 1\n"
+        "            param_pos[bind_name] = ph\n"),
+    sub(_PN_REKEY_OLD,
+        "        if self.escaped_bind_names:\n"
+        "            rekeyed = {}\n"
+        "            for name, pos in param_pos.items():\n"
+        "                rekeyed[self.escaped_bind_names.get(name, name)] = pos\n"
+        "            assert len(rekeyed) == len(param_pos)\n"
+        "            param_pos = rekeyed\n"),
+    sub("        self.string = self._pyformat_pattern.sub(\n            lambda m: param_pos[m.group(1)], self.string\n        )\n",
+        "        def numbered(m):\n            return param_pos[m.group(1)]\n\n"
+        "        self.string = self._pyformat_pattern.sub(numbered, self.string)\n")), None)
+# breaking neighbours
+R.mutant("r3-numeric-text-lookup-table-not-rekeyed", COMP,
+         sub("                self.escaped_bind_names.get(name, name): pos\n", "                name: pos\n"), "C04-R3")
+R.mutant("r3-numeric-literal-execute-params-numbered", COMP,
+         sub("                bind in self.post_compile_params\n                or bind in self.literal_execute_params\n",
+             "                bind in self.post_compile_params\n"), "C04-R3")
+R.mutant("r3-numeric-numbering-guard-inverted-after-continue", COMP, sub(
+    _PN_LOOP_OLD,
+    "            if not (\n"
+    "                bind in self.post_compile_params\n"
+    "                or bind in self.literal_execute_params\n"
+    "            ):\n"
+    "                param_pos[bind_name] = None  # type: ignore[assignment]\n"
+    "                continue\n"
+    "            ph = f\"{self._numeric_binds_identifier_char}{num}\"\n"
+    "            num += 1\n"
+    "            param_pos[bind_name] = ph\n"), "C04-R3")
+R.mutant("r3-positional-positiontup-in-bind-names-order", COMP,
+         sub("        else:\n            self.positiontup = positions\n", "        else:\n            self.positiontup = list(self.bind_names.values())\n"), "C04-R3")
+R.mutant("r3-positional-conditional-lookup-forward-map", COMP, sub(
+    "                reverse_escape.get(name, name) for name in positions\n",
+    "                self.escaped_bind_names[name]\n                if name in self.escaped_bind_names\n                else name\n"
+    "                for name in positions\n"), "C04-R3")
+R.mutant("r3-positional-loop-appends-untranslated-name", COMP, sub(
+    _PP_TUP_OLD,
+    "        if self.escaped_bind_names:\n"
+    "            reverse_escape = {v: k for k, v in self.escaped_bind_names.items()}\n"
+    "            names = []\n"
+    "            for found in positions:\n"
+    "                original = reverse_escape.get(found, found)\n"
+    "                names.append(found)\n"
+    "            self.positiontup = names\n"
+    "        else:\n"
+    "            self.positiontup = positions\n"), "C04-R3")
+
+# ---- R1: the scalar tables spelled differently
+R.mutant("benign-r1-placeholder-ternary-and-alias", COMP, sub(
+    "        if self.dialect.paramstyle == \"format\":\n            placeholder = \"%s\"\n        else:\n"
+    "            assert self.dialect.paramstyle == \"qmark\"\n            placeholder = \"?\"\n",
+    "        style = self.dialect.paramstyle\n        assert style in (\"format\", \"qmark\")\n"
+    "        placeholder = \"?\" if style == \"qmark\" else \"%s\"\n"), None)
+R.mutant("benign-r1-placeholder-lookup-table-early-return-callback", COMP, chain(
+    sub("        if self.dialect.paramstyle == \"format\":\n            placeholder = \"%s\"\n        else:\n"
+        "            assert self.dialect.paramstyle == \"qmark\"\n            placeholder = \"?\"\n",
+        "        placeholder = {\"format\": \"%s\", \"qmark\": \"?\"}[self.dialect.paramstyle]\n"),
+    sub(_PP_CB_OLD, _PP_CB_EARLY)), None)
+R.mutant("benign-r1-numeric-setup-through-locals", COMP, sub(
+    "            self._numeric_binds = nb = dialect.paramstyle.startswith(\"numeric\")\n"
+    "            if nb:\n"
+    "                self._numeric_binds_identifier_char = (\n"
+    "                    \"$\" if dialect.paramstyle == \"numeric_dollar\" else \":\"\n"
+    "                )\n",
+    "            style = dialect.paramstyle\n"
+    "            numeric = style in (\"numeric\", \"numeric_dollar\")\n"
+    "            self._numeric_binds = numeric\n"
+    "            if not numeric:\n"
+    "                pass\n"
+    "            elif style == \"numeric_dollar\":\n"
+    "                self._numeric_binds_identifier_char = \"$\"\n"
+    "            else:\n"
+    "                self._numeric_binds_identifier_char = \":\"\n"), None)
+R.mutant("benign-r1-positional-styles-in-a-local-tuple", DEFAULT, sub(
+    "        self.positional = self.paramstyle in (\n            \"qmark\",\n            \"format\",\n            \"numeric\",\n            \"numeric_dollar\",\n        )\n",
+    "        named_styles = (\"named\", \"pyformat\")\n        style = self.paramstyle\n        self.positional = style not in named_styles\n"), None)
+R.mutant("benign-r1-double-percents-as-disjunction", COMP, sub(
+    "        self._double_percents = self.dialect.paramstyle in (\n            \"format\",\n            \"pyformat\",\n        )",
+    "        paramstyle = self.dialect.paramstyle\n        self._double_percents = (\n            paramstyle == \"pyformat\" or paramstyle == \"format\"\n        )"), None)
+R.mutant("r1-positional-placeholders-swapped", COMP, sub(
+    "        if self.dialect.paramstyle == \"format\":\n            placeholder = \"%s\"\n        else:\n",
+    "        if self.dialect.paramstyle != \"format\":\n            placeholder = \"%s\"\n        else:\n"), "C04-R1")
+R.mutant("r1-callback-returns-placeholder-for-postcompile-only", COMP, sub(
+    "            if normal_bind:\n                positions.append(normal_bind)\n                return placeholder\n",
+    "            if normal_bind:\n                positions.append(normal_bind)\n                return m.group(0)\n"), "C04-R1")
+R.mutant("r1-numeric-local-tuple-forgets-dollar", COMP, sub(
+    "            self._numeric_binds = nb = dialect.paramstyle.startswith(\"numeric\")\n",
+    "            self._numeric_binds = nb = dialect.paramstyle in (\"numeric\",)\n"), "C04-R1")
+
+# ---- R4: translation idiom spelled as a conditional / an if statement
+R.mutant("benign-r4-postcompile-conditional-lookup", COMP, sub(
+    "            escaped_name = ebn.get(name, name) if ebn else name\n",
+    "            escaped_name = ebn[name] if name in ebn else name\n"), None)
+R.mutant("benign-r4-postcompile-if-statement-lookup", COMP, sub(
+    "            escaped_name = ebn.get(name, name) if ebn else name\n",
+    "            if name in ebn:\n                escaped_name = ebn[name]\n            else:\n                escaped_name = name\n"), None)
+R.mutant("r4-postcompile-conditional-lookup-keeps-original", COMP, sub(
+    "            escaped_name = ebn.get(name, name) if ebn else name\n",
+    "            escaped_name = name if name in ebn else ebn.get(name, name)\n"), "C04-R4")
